@@ -1062,6 +1062,587 @@ def shape_inference_correspondence(ck: Check, drv):
                                 {"distribution": kind, "x": x, "parameter": p, "impl": got, "model": rep})
 
 
+# ----------------------------------------------------------------------------- fourth wave: how the object is reached
+def _record(found, key, size, name, rep, ss):
+    prev = found.get(key)
+    if prev is None or size < prev[0]:
+        found[key] = (size, name, rep, ss)
+
+
+def explore_light(ck: Check, case, found, bucket):
+    """row vs slice for: all parameters batched, each parameter alone, shapes [2] [3] [2,3] (+ specials)"""
+    orc = Oracle(case, ck.rng.getrandbits(40))
+    names = sorted(case.params)
+    subs = [frozenset(names)] + [frozenset([k]) for k in names]
+    subs = [b for i, b in enumerate(subs) if b not in subs[:i] and case.valid(b)]
+    for B in subs:
+        for ss in ((2,), (3,), (2, 3)):
+            verdict, detail = orc.run(B, ss)
+            ck.case(key=(bucket, case.name, tuple(sorted(B)), ss), nontrivial=verdict != "slice-raises",
+                    bucket=f"{bucket}/{verdict}")
+            pc = ck.extra.setdefault("per_class", {}).setdefault(case.name, {})
+            pc[verdict] = pc.get(verdict, 0) + 1
+            if verdict in ("value", "shape"):
+                _record(found, (sig_base(case), B, "mixes" if verdict == "value" else "no-sample-rows"),
+                        (len(ss), math.prod(ss)), case.name, replay_dict(case.name, orc, B, ss, verdict, detail), ss)
+    explore_specials(ck, case, found)
+    return orc
+
+
+def explore_routes(ck: Check, found):
+    """models built through process_object on complete JSON documents (inline batched parameters, optional keys,
+    lists/numbers for fixed parameters, sub-objects by reference, short and full type names) must behave like the
+    constructor-built twin, bit for bit, and pass row-vs-slice; plus the minimum-size instances"""
+    for case in CS.json_cases():
+        orc = explore_light(ck, case, found, "route")
+        twin = getattr(case, "twin", None)
+        if twin is None:
+            continue
+        names = frozenset(case.params)
+        for B, ss in ((frozenset(), (2,)), (names, (2,)), (names, (2, 3)), (frozenset([sorted(names)[0]]), (3,))):
+            v = orc.vals.batched(B, ss)
+            a, b = call(case.build, v), call(twin.build, v)
+            same = a[0] == b[0] and (a[0] != "ok" or (a[1].shape == b[1].shape and a[1].dtype == b[1].dtype
+                                                       and torch.equal(a[1], b[1])))
+            ck.case(key=("route-twin", case.name, tuple(sorted(B)), ss), bucket=f"route-twin/{'same' if same else 'differs'}")
+            if not same:
+                detail = {"json": a[1].reshape(-1)[:4].tolist() if a[0] == "ok" else a[1],
+                          "constructor": b[1].reshape(-1)[:4].tolist() if b[0] == "ok" else b[1]}
+                _record(found, (sig_base(case), B, "json-route-differs-from-constructor"), (len(ss), math.prod(ss)),
+                        case.name, replay_dict(case.name, orc, B, ss, "route", detail, {"twin": twin.name}), ss)
+    for case in CS.minimum_size_cases() + [CS.soft_skygrid_distribution_case()]:
+        explore_light(ck, case, found, "minimum-size")
+    # observation (builder-c08): the distribution-level class with temperature=None reads the sampling times of
+    # row 0 for every row. Recorded, not a violation: sampling times are data, identical in every row on every route
+    # the library offers (TimeTreeModel expands ONE `sampling_times` vector; the model class never passes
+    # temperature=None to this class), so rows with different tip times can only be hand-built.
+    try:
+        from torchtree.evolution.coalescent import PiecewiseConstantCoalescentGrid, SoftPiecewiseConstantCoalescentGrid
+
+        tips = torch.tensor([[0.0, 0.5, 1.0, 1.5], [0.0, 0.25, 0.75, 1.0]], dtype=torch.float64)
+        inner = torch.tensor([[2.0, 2.6, 3.4], [1.8, 2.9, 3.1]], dtype=torch.float64)
+        theta = torch.tensor([1.5, 0.7, 2.2, 1.1], dtype=torch.float64)
+        grid = torch.tensor([1.0, 2.0, 3.0], dtype=torch.float64)
+        nh = torch.cat((tips, inner), -1)
+        obs = {}
+        for nm, mk in (("soft(temperature=None)", lambda: SoftPiecewiseConstantCoalescentGrid(theta, grid, None)),
+                       ("hard", lambda: PiecewiseConstantCoalescentGrid(theta, grid))):
+            both = mk().log_prob(nh)
+            rows = [mk().log_prob(nh[i]) for i in range(2)]
+            obs[nm] = {"row_equals_slice": [bool(close(both[i], rows[i])) for i in range(2)]}
+        obs["classification"] = ("rows with DIFFERENT sampling times are hand-built data, not a batched parameter: "
+                                 "recorded as an observation, not counted as a C10 violation")
+        ck.extra["soft_skygrid_row_specific_sampling_times"] = obs
+    except Exception as e:
+        ck.extra["soft_skygrid_row_specific_sampling_times"] = f"not evaluated: {type(e).__name__}: {e}"
+
+
+class _default_dtype:
+    def __init__(self, dt):
+        self.dt = dt
+
+    def __enter__(self):
+        self.old = torch.get_default_dtype()
+        torch.set_default_dtype(self.dt)
+
+    def __exit__(self, *a):
+        torch.set_default_dtype(self.old)
+
+
+def _bitwise(a, b):
+    return a[0] == b[0] and (a[0] != "ok" or (a[1].shape == b[1].shape and a[1].dtype == b[1].dtype
+                                               and torch.equal(a[1], b[1], ) or (a[1].shape == b[1].shape and
+                                               torch.equal(torch.nan_to_num(a[1], nan=-7.0), torch.nan_to_num(b[1], nan=-7.0)))))
+
+
+def explore_regimes(ck: Check, cases, found, budget):
+    """the batched evaluation reached in other ways: under torch.no_grad(), with leaves requiring grad, evaluated
+    twice, with default dtype float32 and float64 inputs, with float32 inputs — same rows (bitwise across grad modes and
+    repeats; row vs slice inside each dtype regime; float64 inputs keep float64 accuracy whatever the default dtype);
+    and every tensor handed in is bit-identical afterwards."""
+    stats = ck.extra.setdefault("regimes", {})
+
+    def bump(k):
+        stats[k] = stats.get(k, 0) + 1
+
+    for case in cases:
+        if time.time() > budget:
+            stats["stopped_by_budget"] = True
+            return
+        names = frozenset(case.params)
+        if not names or not case.valid(names):
+            continue
+        orc = Oracle(case, ck.rng.getrandbits(40))
+        ss = (2,)
+        v0 = orc.vals.batched(names, ss)
+        keep = {k: t.clone() for k, t in v0.items()}
+        base = call(case.build, v0)
+        if base[0] != "ok":
+            bump("baseline-raises")
+            continue
+        ck.case(key=("regimes", case.name), bucket="regimes/cases")
+
+        def flag(kind, detail, ss=ss, B=names):
+            _record(found, (sig_base(case), frozenset(B), kind), (1, 2), case.name,
+                    replay_dict(case.name, orc, B, ss, "regime", detail, {"regime": kind}), ss)
+
+        # 4. immutability of what was handed in
+        changed = [k for k in v0 if not torch.equal(v0[k], keep[k])]
+        if changed:
+            bump("input-mutated")
+            flag("input-mutated", {"what": f"the tensors passed for {changed} were modified in place by the evaluation"})
+        # 5. repeatability (fresh objects, same process)
+        again = call(case.build, orc.vals.batched(names, ss))
+        if not _bitwise(base, again):
+            bump("repeat-differs")
+            flag("repeat-differs", {"what": "a second identical evaluation in the same process returns another value",
+                                    "first": base[1].reshape(-1)[:4].tolist(),
+                                    "second": again[1].reshape(-1)[:4].tolist() if again[0] == "ok" else again[1]})
+        # 3. grad modes
+        with torch.no_grad():
+            ng = call(case.build, orc.vals.batched(names, ss))
+        if ng[0] == "raise":
+            bump("no_grad-raises")
+        elif not _bitwise(base, ng):
+            bump("no_grad-differs")
+            flag("no_grad-differs", {"what": "value under torch.no_grad() differs from the value with autograd enabled",
+                                     "autograd": base[1].reshape(-1)[:4].tolist(), "no_grad": ng[1].reshape(-1)[:4].tolist()})
+        vg = {k: (t.clone().requires_grad_(True) if t.is_floating_point() else t) for k, t in orc.vals.batched(names, ss).items()}
+        rg = call(case.build, vg)
+        if rg[0] == "raise":
+            bump("requires_grad-raises")
+            stats.setdefault("requires_grad_raises_in", []).append(f"{case.name}: {rg[1][:80]}")
+        elif not _bitwise(base, rg):
+            bump("requires_grad-differs")
+            flag("requires_grad-differs", {"what": "value with leaves requiring grad differs from the plain value",
+                                           "plain": base[1].reshape(-1)[:4].tolist(), "requires_grad": rg[1].reshape(-1)[:4].tolist()})
+        # 2. dtype regimes: (a) default float32, float64 inputs
+        with _default_dtype(torch.float32):
+            a = call(case.build, orc.vals.batched(names, ss))
+            sl = [call(case.build, orc.vals.slice(names, pool_index(ss, s))) for s in sample_indices(ss)]
+        if a[0] == "raise":
+            bump("default32/raises")
+        else:
+            bump(f"default32/result-{str(a[1].dtype).replace('torch.', '')}")
+            if a[1].dtype != torch.float64:
+                stats.setdefault("default32_float64_inputs_give_other_dtype", []).append(f"{case.name}: {a[1].dtype}")
+            if all(x[0] == "ok" for x in sl):
+                verdict, detail = judge(ss, a[1], {s: x[1] for s, x in zip(sample_indices(ss), sl)})
+                if verdict in ("value", "shape"):
+                    bump("default32/row-differs")
+                    flag("default-float32|row-differs-from-slice", detail)
+            if a[1].dtype == torch.float64 and a[1].shape == base[1].shape:
+                fin = torch.isfinite(base[1]) & torch.isfinite(a[1])
+                err = ((a[1] - base[1]).abs()[fin] / torch.clamp(base[1].abs()[fin], min=1.0))
+                if err.numel() and float(err.max()) > 1e-10:
+                    bump("default32/float64-inputs-lose-accuracy")
+                    stats.setdefault("default32_accuracy_loss_in", []).append(f"{case.name}: rel {float(err.max()):.2e}")
+        # (b) float32 inputs under default float64
+        v32 = {k: (t.to(torch.float32) if t.dtype == torch.float64 else t) for k, t in orc.vals.batched(names, ss).items()}
+        b = call(case.build, v32)
+        if b[0] == "raise":
+            bump("inputs32/raises")
+        else:
+            bump(f"inputs32/result-{str(b[1].dtype).replace('torch.', '')}")
+            sl = []
+            for s in sample_indices(ss):
+                vs = {k: (t.to(torch.float32) if t.dtype == torch.float64 else t)
+                      for k, t in orc.vals.slice(names, pool_index(ss, s)).items()}
+                sl.append(call(case.build, vs))
+            if all(x[0] == "ok" for x in sl) and tuple(b[1].shape[:1]) == ss:
+                bad = None
+                for s, x in zip(sample_indices(ss), sl):
+                    r, q = b[1][s].reshape(-1).double(), x[1].reshape(-1).double()
+                    if r.shape != q.shape:
+                        bad = {"sample": list(s), "row_shape": list(r.shape), "slice_shape": list(q.shape)}
+                        break
+                    fin = torch.isfinite(r) & torch.isfinite(q)
+                    tol = 2e-3 * torch.clamp(torch.maximum(r.abs(), q.abs()), min=1.0)
+                    if not bool(((r - q).abs()[fin] <= tol[fin]).all()):
+                        bad = {"sample": list(s), "batched_row": r[:4].tolist(), "slice_value": q[:4].tolist()}
+                        break
+                if bad:
+                    bump("inputs32/row-differs")
+                    flag("float32-inputs|row-differs-from-slice", bad)
+
+
+def explore_live_updates(ck: Check, cases, found, budget):
+    """an object first evaluated with unbatched parameters, then given batched tensors through the public
+    `parameter.tensor = ...` interface (and back): it must return what a freshly built object returns — nothing
+    remembered from the earlier shape (caches keyed by shape, tensors created at construction time)."""
+    stats = ck.extra.setdefault("live_updates", {})
+    for case in cases:
+        if time.time() > budget:
+            stats["stopped_by_budget"] = True
+            return
+        if case.mk is None or getattr(case, "components", None) is not None:
+            continue
+        names = sorted(case.params)
+        orc = Oracle(case, ck.rng.getrandbits(40))
+        try:
+            obj = case.mk(orc.vals.slice(frozenset(), 0))
+            ps = {}
+            for p in obj.parameters():
+                ps.setdefault(str(p.id), p)
+            if not all(k in ps and tuple(ps[k].shape) == tuple(orc.vals.base[k].shape) for k in names):
+                stats["skipped-no-parameter-handle"] = stats.get("skipped-no-parameter-handle", 0) + 1
+                continue
+            first = obj()
+        except Exception as e:
+            stats["skipped-" + type(e).__name__] = stats.get("skipped-" + type(e).__name__, 0) + 1
+            continue
+        for B in [frozenset(names)] + [frozenset([k]) for k in names[:3]]:
+            if not case.valid(B):
+                continue
+            ss = (2,) if len(B) > 1 else (3,)
+            vb = orc.vals.batched(B, ss)
+            fresh = call(case.build, vb)
+            try:
+                for k in sorted(B):
+                    ps[k].tensor = vb[k].clone()
+                live = ("ok", obj().detach().clone())
+            except Exception as e:
+                live = ("raise", f"{type(e).__name__}: {str(e)[:80]}")
+            try:  # and back to the unbatched values
+                for k in sorted(B):
+                    ps[k].tensor = orc.vals.base[k].clone()
+                back = ("ok", obj().detach().clone())
+            except Exception as e:
+                back = ("raise", f"{type(e).__name__}: {str(e)[:80]}")
+            ok1 = fresh[0] == "raise" or (live[0] == "ok" and live[1].shape == fresh[1].shape and close(live[1], fresh[1]))
+            ok2 = back[0] == "ok" and back[1].shape == first.shape and close(back[1], first.detach())
+            ck.case(key=("live", case.name, tuple(sorted(B))), bucket=f"live-update/{'ok' if ok1 and ok2 else 'differs'}")
+            if not (ok1 and ok2):
+                detail = {"what": ("after parameter.tensor = <batched> the live object " if not ok1 else
+                                   "after going back to the unbatched tensors the live object ") +
+                                  "does not return what a freshly built object returns",
+                          "fresh": fresh[1].reshape(-1)[:4].tolist() if fresh[0] == "ok" else fresh[1],
+                          "live": live[1].reshape(-1)[:4].tolist() if live[0] == "ok" else live[1],
+                          "back": back[1].reshape(-1)[:4].tolist() if back[0] == "ok" else back[1],
+                          "first": first.reshape(-1)[:4].tolist()}
+                _record(found, (sig_base(case), frozenset(B), "live-update-differs-from-fresh"), (1, math.prod(ss)),
+                        case.name, replay_dict(case.name, orc, B, ss, "regime", detail, {"regime": "live-update"}), ss)
+
+
+ANCHORS = ["torchtree/distributions/joint_distribution.py", "torchtree/distributions/distributions.py",
+           "torchtree/evolution/tree_likelihood.py", "torchtree/evolution/coalescent.py", "torchtree/evolution/bdsk.py",
+           "torchtree/evolution/substitution_model/abstract.py", "torchtree/evolution/site_model.py",
+           "torchtree/core/container.py", "torchtree/core/model.py"]
+
+
+def scan_constructors_without_dtype():
+    """tensor constructors in the anchored files that name neither dtype nor device (their result depends on the
+    process-wide default dtype): listed in the evidence"""
+    import ast
+
+    makers = {"zeros", "ones", "full", "tensor", "arange", "linspace", "eye", "empty", "rand", "randn", "zeros_like",
+              "ones_like", "full_like"}
+    out = []
+    for rel in ANCHORS:
+        f = REPO / rel
+        try:
+            tree = ast.parse(f.read_text())
+        except Exception as e:
+            out.append(f"{rel}: not parsed ({type(e).__name__})")
+            continue
+        for node in ast.walk(tree):
+            if isinstance(node, ast.Call) and isinstance(node.func, ast.Attribute) and node.func.attr in makers \
+                    and isinstance(node.func.value, ast.Name) and node.func.value.id == "torch":
+                kws = {k.arg for k in node.keywords}
+                if node.func.attr.endswith("_like"):
+                    continue  # inherits dtype and device from its argument
+                if "dtype" not in kws and "device" not in kws and None not in kws:
+                    out.append(f"{rel}:{node.lineno} torch.{node.func.attr}(...)")
+    return out
+
+
+# ----------------------------------------------------------------------------- fourth wave: how the object is reached
+def _record(found, key, size, name, rep, ss):
+    prev = found.get(key)
+    if prev is None or size < prev[0]:
+        found[key] = (size, name, rep, ss)
+
+
+def explore_light(ck: Check, case, found, bucket):
+    """row vs slice for: all parameters batched, each parameter alone, shapes [2] [3] [2,3] (+ specials)"""
+    orc = Oracle(case, ck.rng.getrandbits(40))
+    names = sorted(case.params)
+    subs = [frozenset(names)] + [frozenset([k]) for k in names]
+    subs = [b for i, b in enumerate(subs) if b not in subs[:i] and case.valid(b)]
+    for B in subs:
+        for ss in ((2,), (3,), (2, 3)):
+            verdict, detail = orc.run(B, ss)
+            ck.case(key=(bucket, case.name, tuple(sorted(B)), ss), nontrivial=verdict != "slice-raises",
+                    bucket=f"{bucket}/{verdict}")
+            pc = ck.extra.setdefault("per_class", {}).setdefault(case.name, {})
+            pc[verdict] = pc.get(verdict, 0) + 1
+            if verdict in ("value", "shape"):
+                _record(found, (sig_base(case), B, "mixes" if verdict == "value" else "no-sample-rows"),
+                        (len(ss), math.prod(ss)), case.name, replay_dict(case.name, orc, B, ss, verdict, detail), ss)
+    explore_specials(ck, case, found)
+    return orc
+
+
+def explore_routes(ck: Check, found):
+    """models built through process_object on complete JSON documents (inline batched parameters, optional keys,
+    lists/numbers for fixed parameters, sub-objects by reference, short and full type names) must behave like the
+    constructor-built twin, bit for bit, and pass row-vs-slice; plus the minimum-size instances"""
+    for case in CS.json_cases():
+        orc = explore_light(ck, case, found, "route")
+        twin = getattr(case, "twin", None)
+        if twin is None:
+            continue
+        names = frozenset(case.params)
+        for B, ss in ((frozenset(), (2,)), (names, (2,)), (names, (2, 3)), (frozenset([sorted(names)[0]]), (3,))):
+            v = orc.vals.batched(B, ss)
+            a, b = call(case.build, v), call(twin.build, v)
+            same = _bitwise(a, b)
+            ck.case(key=("route-twin", case.name, tuple(sorted(B)), ss), bucket=f"route-twin/{'same' if same else 'differs'}")
+            if not same:
+                detail = {"what": "the object built through from_json does not return what the constructor-built one returns",
+                          "json": a[1].reshape(-1)[:4].tolist() if a[0] == "ok" else a[1],
+                          "constructor": b[1].reshape(-1)[:4].tolist() if b[0] == "ok" else b[1]}
+                _record(found, (sig_base(case), B, "json-route-differs-from-constructor"), (len(ss), math.prod(ss)),
+                        case.name, replay_dict(case.name, orc, B, ss, "route", detail, {"twin": twin.name}), ss)
+    for case in CS.minimum_size_cases() + [CS.soft_skygrid_distribution_case()]:
+        explore_light(ck, case, found, "minimum-size")
+    # observation (builder-c08): the distribution-level class with temperature=None reads the sampling times of
+    # row 0 for every row. Recorded, not a violation: sampling times are data, identical in every row on every route
+    # the library offers (TimeTreeModel expands ONE `sampling_times` vector; the model class never passes
+    # temperature=None to this class), so rows with different tip times can only be hand-built.
+    try:
+        from torchtree.evolution.coalescent import PiecewiseConstantCoalescentGrid, SoftPiecewiseConstantCoalescentGrid
+
+        tips = torch.tensor([[0.0, 0.5, 1.0, 1.5], [0.0, 0.25, 0.75, 1.0]], dtype=torch.float64)
+        inner = torch.tensor([[2.0, 2.6, 3.4], [1.8, 2.9, 3.1]], dtype=torch.float64)
+        theta = torch.tensor([1.5, 0.7, 2.2, 1.1], dtype=torch.float64)
+        grid = torch.tensor([1.0, 2.0, 3.0], dtype=torch.float64)
+        nh = torch.cat((tips, inner), -1)
+        obs = {}
+        for nm, mk in (("soft(temperature=None)", lambda: SoftPiecewiseConstantCoalescentGrid(theta, grid, None)),
+                       ("hard", lambda: PiecewiseConstantCoalescentGrid(theta, grid))):
+            both = mk().log_prob(nh)
+            rows = [mk().log_prob(nh[i]) for i in range(2)]
+            obs[nm] = {"row_equals_slice": [bool(close(both[i], rows[i])) for i in range(2)]}
+        obs["classification"] = ("rows with DIFFERENT sampling times are hand-built data, not a batched parameter: "
+                                 "recorded as an observation, not counted as a C10 violation")
+        ck.extra["soft_skygrid_row_specific_sampling_times"] = obs
+    except Exception as e:
+        ck.extra["soft_skygrid_row_specific_sampling_times"] = f"not evaluated: {type(e).__name__}: {e}"
+
+
+class _default_dtype:
+    def __init__(self, dt):
+        self.dt = dt
+
+    def __enter__(self):
+        self.old = torch.get_default_dtype()
+        torch.set_default_dtype(self.dt)
+
+    def __exit__(self, *a):
+        torch.set_default_dtype(self.old)
+
+
+def _bitwise(a, b):
+    if a[0] != b[0]:
+        return False
+    if a[0] != "ok":
+        return True
+    x, y = a[1], b[1]
+    return x.shape == y.shape and x.dtype == y.dtype and torch.equal(torch.nan_to_num(x, nan=-7.0), torch.nan_to_num(y, nan=-7.0))
+
+
+def explore_regimes(ck: Check, cases, found, budget):
+    """the batched evaluation reached in other ways: under torch.no_grad(), with leaves requiring grad, evaluated
+    twice, with default dtype float32 and float64 inputs, with float32 inputs — same rows (bitwise across grad modes and
+    repeats; row vs slice inside each dtype regime; accuracy of float64 inputs under a float32 default is recorded);
+    and every tensor handed in is bit-identical afterwards."""
+    stats = ck.extra.setdefault("regimes", {})
+
+    def bump(k):
+        stats[k] = stats.get(k, 0) + 1
+
+    for case in cases:
+        if time.time() > budget:
+            stats["stopped_by_budget"] = True
+            return
+        names = frozenset(case.params)
+        if not names or not case.valid(names):
+            continue
+        orc = Oracle(case, ck.rng.getrandbits(40))
+        ss = (2,)
+        v0 = orc.vals.batched(names, ss)
+        keep = {k: t.clone() for k, t in v0.items()}
+        base = call(case.build, v0)
+        if base[0] != "ok":
+            bump("baseline-raises")
+            continue
+        ck.case(key=("regimes", case.name), bucket="regimes/cases")
+
+        def flag(kind, detail, ss=ss, B=names, case=case, orc=orc):
+            _record(found, (sig_base(case), frozenset(B), kind), (1, 2), case.name,
+                    replay_dict(case.name, orc, B, ss, "regime", detail, {"regime": kind}), ss)
+
+        changed = [k for k in v0 if not torch.equal(v0[k], keep[k])]
+        if changed:
+            bump("input-mutated")
+            flag("input-mutated", {"what": f"the tensors passed for {changed} were modified in place by the evaluation"})
+        again = call(case.build, orc.vals.batched(names, ss))
+        if not _bitwise(base, again):
+            bump("repeat-differs")
+            flag("repeat-differs", {"what": "a second identical evaluation in the same process returns another value",
+                                    "first": base[1].reshape(-1)[:4].tolist(),
+                                    "second": again[1].reshape(-1)[:4].tolist() if again[0] == "ok" else again[1]})
+        with torch.no_grad():
+            ng = call(case.build, orc.vals.batched(names, ss))
+        if ng[0] == "raise":
+            bump("no_grad-raises")
+        elif not _bitwise(base, ng):
+            bump("no_grad-differs")
+            flag("no_grad-differs", {"what": "value under torch.no_grad() differs from the value with autograd enabled",
+                                     "autograd": base[1].reshape(-1)[:4].tolist(), "no_grad": ng[1].reshape(-1)[:4].tolist()})
+        vg = {k: (t.clone().requires_grad_(True) if t.is_floating_point() else t) for k, t in orc.vals.batched(names, ss).items()}
+        rg = call(case.build, vg)
+        if rg[0] == "raise":
+            bump("requires_grad-raises")
+            stats.setdefault("requires_grad_raises_in", []).append(f"{case.name}: {rg[1][:80]}")
+        elif not _bitwise(base, rg):
+            bump("requires_grad-differs")
+            flag("requires_grad-differs", {"what": "value with leaves requiring grad differs from the plain value",
+                                           "plain": base[1].reshape(-1)[:4].tolist(), "requires_grad": rg[1].reshape(-1)[:4].tolist()})
+        # dtype regimes: (a) default float32, float64 inputs
+        with _default_dtype(torch.float32):
+            a = call(case.build, orc.vals.batched(names, ss))
+            sl = [call(case.build, orc.vals.slice(names, pool_index(ss, s))) for s in sample_indices(ss)]
+        if a[0] == "raise":
+            bump("default32/raises")
+        else:
+            bump(f"default32/result-{str(a[1].dtype).replace('torch.', '')}")
+            if a[1].dtype != torch.float64:
+                stats.setdefault("default32_float64_inputs_give_other_dtype", []).append(f"{case.name}: {a[1].dtype}")
+            if all(x[0] == "ok" for x in sl):
+                verdict, detail = judge(ss, a[1], {s: x[1] for s, x in zip(sample_indices(ss), sl)})
+                if verdict in ("value", "shape"):
+                    bump("default32/row-differs")
+                    flag("default-float32|row-differs-from-slice", detail)
+            if a[1].dtype == torch.float64 and a[1].shape == base[1].shape:
+                fin = torch.isfinite(base[1]) & torch.isfinite(a[1])
+                err = ((a[1] - base[1]).abs()[fin] / torch.clamp(base[1].abs()[fin], min=1.0))
+                if err.numel() and float(err.max()) > 1e-10:
+                    bump("default32/float64-inputs-lose-accuracy")
+                    stats.setdefault("default32_accuracy_loss_in", []).append(f"{case.name}: rel {float(err.max()):.2e}")
+        # (b) float32 inputs under default float64
+        to32 = lambda d: {k: (t.to(torch.float32) if t.dtype == torch.float64 else t) for k, t in d.items()}  # noqa: E731
+        b = call(case.build, to32(orc.vals.batched(names, ss)))
+        if b[0] == "raise":
+            bump("inputs32/raises")
+        else:
+            bump(f"inputs32/result-{str(b[1].dtype).replace('torch.', '')}")
+            sl = [call(case.build, to32(orc.vals.slice(names, pool_index(ss, s)))) for s in sample_indices(ss)]
+            if all(x[0] == "ok" for x in sl) and tuple(b[1].shape[:1]) == ss:
+                bad = None
+                for s, x in zip(sample_indices(ss), sl):
+                    r, q = b[1][s].reshape(-1).double(), x[1].reshape(-1).double()
+                    if r.shape != q.shape:
+                        bad = {"sample": list(s), "row_shape": list(r.shape), "slice_shape": list(q.shape)}
+                        break
+                    fin = torch.isfinite(r) & torch.isfinite(q)
+                    tol = 2e-3 * torch.clamp(torch.maximum(r.abs(), q.abs()), min=1.0)
+                    if not bool(((r - q).abs()[fin] <= tol[fin]).all()):
+                        bad = {"sample": list(s), "batched_row": r[:4].tolist(), "slice_value": q[:4].tolist()}
+                        break
+                if bad:
+                    bump("inputs32/row-differs")
+                    flag("float32-inputs|row-differs-from-slice", bad)
+
+
+def explore_live_updates(ck: Check, cases, found, budget):
+    """an object first evaluated with unbatched parameters, then given batched tensors through the public
+    `parameter.tensor = ...` interface (and back): it must return what a freshly built object returns — nothing
+    remembered from the earlier shape (caches keyed by shape, tensors created at construction time)."""
+    stats = ck.extra.setdefault("live_updates", {})
+    for case in cases:
+        if time.time() > budget:
+            stats["stopped_by_budget"] = True
+            return
+        if case.mk is None or getattr(case, "components", None) is not None:
+            continue
+        names = sorted(case.params)
+        orc = Oracle(case, ck.rng.getrandbits(40))
+        try:
+            obj = case.mk(orc.vals.slice(frozenset(), 0))
+            ps = {}
+            for p in obj.parameters():
+                ps.setdefault(str(p.id), p)
+            if not all(k in ps and tuple(ps[k].shape) == tuple(orc.vals.base[k].shape) for k in names):
+                stats["skipped-no-parameter-handle"] = stats.get("skipped-no-parameter-handle", 0) + 1
+                continue
+            first = obj().detach().clone()
+        except Exception as e:
+            stats["skipped-" + type(e).__name__] = stats.get("skipped-" + type(e).__name__, 0) + 1
+            continue
+        for B in [frozenset(names)] + [frozenset([k]) for k in names[:3]]:
+            if not case.valid(B):
+                continue
+            ss = (2,) if len(B) > 1 else (3,)
+            vb = orc.vals.batched(B, ss)
+            fresh = call(case.build, vb)
+            try:
+                for k in sorted(B):
+                    ps[k].tensor = vb[k].clone()
+                live = ("ok", obj().detach().clone())
+            except Exception as e:
+                live = ("raise", f"{type(e).__name__}: {str(e)[:80]}")
+            try:  # and back to the unbatched values
+                for k in sorted(B):
+                    ps[k].tensor = orc.vals.base[k].clone()
+                back = ("ok", obj().detach().clone())
+            except Exception as e:
+                back = ("raise", f"{type(e).__name__}: {str(e)[:80]}")
+            ok1 = fresh[0] == "raise" or (live[0] == "ok" and live[1].shape == fresh[1].shape and close(live[1], fresh[1]))
+            ok2 = back[0] == "ok" and back[1].shape == first.shape and close(back[1], first)
+            ck.case(key=("live", case.name, tuple(sorted(B))), bucket=f"live-update/{'ok' if ok1 and ok2 else 'differs'}")
+            if not (ok1 and ok2):
+                detail = {"what": ("after parameter.tensor = <batched> the live object " if not ok1 else
+                                   "after going back to the unbatched tensors the live object ") +
+                                  "does not return what a freshly built object returns",
+                          "fresh": fresh[1].reshape(-1)[:4].tolist() if fresh[0] == "ok" else fresh[1],
+                          "live": live[1].reshape(-1)[:4].tolist() if live[0] == "ok" else live[1],
+                          "back": back[1].reshape(-1)[:4].tolist() if back[0] == "ok" else back[1],
+                          "first": first.reshape(-1)[:4].tolist()}
+                _record(found, (sig_base(case), frozenset(B), "live-update-differs-from-fresh"), (1, math.prod(ss)),
+                        case.name, replay_dict(case.name, orc, B, ss, "regime", detail, {"regime": "live-update"}), ss)
+
+
+ANCHORS = ["torchtree/distributions/joint_distribution.py", "torchtree/distributions/distributions.py",
+           "torchtree/evolution/tree_likelihood.py", "torchtree/evolution/coalescent.py", "torchtree/evolution/bdsk.py",
+           "torchtree/evolution/substitution_model/abstract.py", "torchtree/evolution/site_model.py",
+           "torchtree/core/container.py", "torchtree/core/model.py"]
+
+
+def scan_constructors_without_dtype():
+    """tensor constructors in the anchored files that name neither dtype nor device (their result depends on the
+    process-wide default dtype): listed in the evidence"""
+    import ast
+
+    makers = {"zeros", "ones", "full", "tensor", "arange", "linspace", "eye", "empty", "rand", "randn"}
+    out = []
+    for rel in ANCHORS:
+        f = REPO / rel
+        try:
+            tree = ast.parse(f.read_text())
+        except Exception as e:
+            out.append(f"{rel}: not parsed ({type(e).__name__})")
+            continue
+        for node in ast.walk(tree):
+            if isinstance(node, ast.Call) and isinstance(node.func, ast.Attribute) and node.func.attr in makers \
+                    and isinstance(node.func.value, ast.Name) and node.func.value.id == "torch":
+                kws = {k.arg for k in node.keywords}
+                if "dtype" not in kws and "device" not in kws and None not in kws:
+                    out.append(f"{rel}:{node.lineno} torch.{node.func.attr}(...)")
+    return sorted(out)
+
+
 def replay_regime(case, obj, v, base, pool, B, ss) -> int:
     """re-execute a finding of the fourth-wave passes (how the batched evaluation is reached)"""
     kind = obj.get("regime") or "route"
